@@ -28,6 +28,9 @@ structure Sub where
   replayOpen : Bool := false  -- C15: new non-shared subscription whose retained replay may still arrive
   since : Nat := 0            -- op counter when it took effect
   replayed : List String := []   -- topics whose retained message was replayed through this subscription
+  replayDue : Bool := true        -- completeness of the replay is required (not after a session resume)
+  lossy : Bool := false          -- resumed QoS 0 subscription: forwards read but not drained before the
+                                 -- disconnect are lost (at most once), so the first forward may skip ahead
 deriving Repr
 
 /-- forwarded QoS>0 entry awaiting the client's acknowledgement (C08 resume point, C09 window) -/
@@ -52,6 +55,7 @@ structure LinkMon where
   pendingAcks : List Pending := []
   mayConnack : Bool := true
   maxWindow : Nat := 0
+  replays : List (String × Nat) := []    -- (topic, qos) of the retained-flagged forwards seen (C15)
 deriving Repr
 
 structure Saved where
@@ -64,6 +68,7 @@ structure GroupMon where
   name : String
   idx : Nat
   delivered : List Nat := []
+  maybe : List Nat := []      -- entries forwarded to a member that is also subscribed through another matching subscription
   stableFrom : Nat := 0
   fuzzy : Bool := false
 deriving Repr
@@ -78,6 +83,7 @@ structure MonState where
   retainedHist : List (String × Nat × Option Pub) := []   -- (topic, time, value) most recent last
   liveCount : Nat := 0
   spun : Bool := false
+  heads : List (Nat × Nat) := []         -- (filter idx, abs offset of the oldest retained entry) after each eviction
 
 def MonState.init (c : Config) : MonState := { cfg := some c }
 
@@ -101,23 +107,29 @@ def listSet {α} (l : List α) (i : Nat) (a : α) : List α := l.set i a
 
 /-- candidates for one configuration: (new configuration, sub index, abs offset) -/
 def candidates (m : MonState) (lm : LinkMon) (cfg : List Nat) (f : Pub) : List (List Nat × Nat × Nat) :=
-  (lm.subs.zipIdx).filterMap fun (s, i) =>
+  (lm.subs.zipIdx).flatMap fun (s, i) =>
     let ptr := cfg[i]?.getD s.start
-    if s.qos != f.qos then none else
+    if s.qos != f.qos then [] else
     let h := histOf m s.idx
     let bound := match s.closedAt with | some u => u | none => h.length
+    let tryAt (p : Nat) : List (List Nat × Nat × Nat) :=
+      if p < bound then
+        match h[p]? with
+        | some e => if sameMessage f e then [(listSet cfg i (p + 1), i, p)] else []
+        | none => []
+      else []
+    let later : List (List Nat × Nat × Nat) :=
+      match ((h.zipIdx).drop ptr).find? (fun (e, a) => a < bound && sameMessage f e) with
+      | some (_, a) => [(listSet cfg i (a + 1), i, a)]
+      | none => []
     match s.group with
     | none =>
-      if ptr < bound then
-        match h[ptr]? with
-        | some e => if sameMessage f e then some (listSet cfg i (ptr + 1), i, ptr) else none
-        | none => none
-      else none
-    | some _ =>
-      -- shared: any later entry, in increasing order per member
-      match ((h.zipIdx).drop ptr).find? (fun (e, a) => a < bound && sameMessage f e) with
-      | some (_, a) => some (listSet cfg i (a + 1), i, a)
-      | none => none
+      -- the next entry, or (permitted loss) the oldest retained entry after an eviction that
+      -- overtook this subscriber's cursor; every alternative is kept (payloads need not be unique)
+      let jumps := (m.heads.filter (fun hd => hd.1 == s.idx && hd.2 > ptr)).flatMap (fun hd => tryAt hd.2)
+      let cs := tryAt ptr ++ jumps
+      if cs.isEmpty && s.lossy then later else cs
+    | some _ => later   -- shared: any later entry, in increasing order per member
 
 def dedup {α} [BEq α] (l : List α) : List α := l.foldl (fun acc x => if acc.contains x then acc else acc ++ [x]) []
 
@@ -135,6 +147,17 @@ def currentRetained (m : MonState) (topic : String) : Option Pub :=
   match ((m.retainedHist.filter (fun e => e.1 == topic)).getLast?) with
   | some (_, _, v) => v
   | none => none
+
+def showBytes (b : Bytes) : String := String.ofList (b.map (fun x => Char.ofNat x.toNat))
+
+/-- for failure reports: each subscription with its pointer and the entry it expects next -/
+def describeSubs (m : MonState) (lm : LinkMon) : String :=
+  let cfg := lm.configs.head?.getD []
+  " ".intercalate ((lm.subs.zipIdx).map fun (s, i) =>
+    let ptr := cfg[i]?.getD s.start
+    let h := histOf m s.idx
+    let nxt := match h[ptr]? with | some e => showBytes e.payload | none => "-"
+    s!"[{s.path} q{s.qos} idx{s.idx} ptr={ptr}/{h.length} next={nxt} closed={repr s.closedAt} cfgs={lm.configs.length}]")
 
 /-- one forward observed on link `l` -/
 def observeForward (m : MonState) (l : Nat) (f : Pub) : MonState × Fail :=
@@ -154,26 +177,33 @@ def observeForward (m : MonState) (l : Nat) (f : Pub) : MonState × Fail :=
     match utf8? f.topic with
     | none => (setL m l lm, some ("c15-retained-unexpected", "retained-flagged forward with a non-UTF-8 topic"))
     | some topic =>
-      let good (s : Sub) : Bool :=
-        s.replayOpen && s.qos == f.qos && topicMatches topic s.path && !s.replayed.contains topic &&
+      -- attribution-free: at most one replay of `topic` per eligible subscription
+      let eligible := lm.subs.filter fun s =>
+        s.replayOpen && s.qos == f.qos && topicMatches topic s.path &&
           (retainedValuesSince m topic s.since).any (fun v => v.payload == f.payload)
-      let ok := lm.subs.any good
+      let seen := (lm.replays.filter (fun r => r.1 == topic && r.2 == f.qos)).length
       let lm := if f.qos = 0 then lm else { lm with pendingAcks := lm.pendingAcks ++ [{ pkid := f.pkid, subIx := none, abs := none }] }
-      let ix := lm.subs.findIdx? good
-      let lm := match ix with
-        | some i => { lm with subs := (lm.subs.zipIdx).map (fun (s, j) => if j == i then { s with replayed := s.replayed ++ [topic] } else s) }
-        | none => lm
-      if ok then (setL m l lm, none)
+      let lm := { lm with replays := lm.replays ++ [(topic, f.qos)] }
+      if seen < eligible.length then (setL m l lm, none)
       else (setL m l lm, some ("c15-retained-unexpected",
-        s!"retained-flagged forward on topic {topic} is not the replay of a new non-shared subscription with the retained value"))
+        s!"retained-flagged forward on topic {topic} is not the replay of a new non-shared subscription with the retained value ({seen} replays seen, {eligible.length} eligible subscriptions)"))
   else
   if lm.ambiguous then
     let lm := if f.qos = 0 then lm else { lm with pendingAcks := lm.pendingAcks ++ [{ pkid := f.pkid, subIx := none, abs := none }] }
     (setL m l lm, none) else
   let cands := lm.configs.flatMap (fun cfg => candidates m lm cfg f)
   if cands.isEmpty then
+    -- an entry this member already received through one of its shared subscriptions?
+    let cfg0 := lm.configs.head?.getD []
+    let again := (lm.subs.zipIdx).any fun (s, i) =>
+      s.group.isSome && s.qos == f.qos && !f.payload.isEmpty &&
+        (((histOf m s.idx).take (cfg0[i]?.getD s.start)).any (fun e => sameMessage f e))
+    if again then
+      (setL m l lm, some ("c17-delivered-twice",
+        s!"payload {showBytes f.payload} (qos {f.qos}, pkid {f.pkid}) was already forwarded to this member through its shared subscription"))
+    else
     (setL m l lm, some ("c01-unexpected-forward",
-      s!"forward qos={f.qos} payload={String.ofList (f.payload.map (fun b => Char.ofNat b.toNat))} is not the next undelivered message of any subscription of this connection (no match, out of order, duplicate or gap)"))
+      s!"forward qos={f.qos} payload={String.ofList (f.payload.map (fun b => Char.ofNat b.toNat))} is not the next undelivered message of any subscription of this connection (no match, out of order, duplicate or gap); subscriptions: {describeSubs m lm}; positions: {lm.subs.map (fun s => ((histOf m s.idx).zipIdx.filterMap (fun (e, k) => if sameMessage f e then some k else none), (m.heads.filter (fun hd => hd.1 == s.idx)).map (fun hd => (hd.2, match (histOf m s.idx)[hd.2]? with | some e => showBytes e.payload | none => "?"))))}"))
   else
     let cfgs := dedup (cands.map (·.1))
     let picks := dedup (cands.map (fun c => (c.2.1, c.2.2)))
@@ -183,24 +213,39 @@ def observeForward (m : MonState) (l : Nat) (f : Pub) : MonState × Fail :=
       { lm with pendingAcks := lm.pendingAcks ++
           [{ pkid := f.pkid, subIx := if unique then si else none, abs := if unique then ab else none }] }
     let lm := if cfgs.length > CAP then { lm with ambiguous := true, configs := cfgs.take 1 } else { lm with configs := cfgs }
+    let lm := match si with
+      | some i => if unique then { lm with subs := (lm.subs.zipIdx).map (fun (s, j) => if j == i then { s with lossy := false } else s) } else lm
+      | none => lm
     let m := setL m l lm
     -- C17: through a group every entry goes to at most one member, never twice
+    if !unique then
+      -- the forward belongs to one of several subscriptions: every candidate group may have delivered it
+      let marks := picks.filterMap (fun (i', a') => match lm.subs[i']? with
+        | some s' => s'.group.map (fun g' => (g', s'.idx, a'))
+        | none => none)
+      ({ m with groups := m.groups.map (fun gm =>
+           match marks.find? (fun mk => mk.1 == gm.name && mk.2.1 == gm.idx) with
+           | some mk => { gm with maybe := gm.maybe ++ [mk.2.2] }
+           | none => gm) }, none)
+    else
     match si, ab with
     | some i, some a =>
       match lm.subs[i]? with
       | some s =>
         match s.group with
         | some g =>
-          if !unique then
-            ({ m with groups := m.groups.map (fun gm => if gm.name == g && gm.idx == s.idx then { gm with fuzzy := true } else gm) }, none)
-          else
-            match m.groups.find? (fun gm => gm.name == g && gm.idx == s.idx) with
-            | some gm =>
-              if gm.delivered.contains a && !gm.fuzzy then
-                (m, some ("c17-delivered-twice", s!"entry {a} of group {g} was already forwarded to a member"))
-              else
-                ({ m with groups := m.groups.map (fun x => if x.name == g && x.idx == s.idx then { x with delivered := x.delivered ++ [a] } else x) }, none)
-            | none => (m, none)
+          match m.groups.find? (fun gm => gm.name == g && gm.idx == s.idx) with
+          | some gm =>
+            if f.payload.isEmpty then
+              -- empty payloads are not unique: the entry is only known to be one of the empty ones
+              ({ m with groups := m.groups.map (fun x => if x.name == g && x.idx == s.idx then
+                  { x with maybe := x.maybe ++ ((histOf m s.idx).zipIdx.filterMap (fun (e, k) => if e.payload.isEmpty then some k else none)) } else x) }, none)
+            else
+            if gm.delivered.contains a && !gm.fuzzy then
+              (m, some ("c17-delivered-twice", s!"entry {a} (payload {showBytes f.payload}, qos {f.qos}, pkid {f.pkid}) of group {g} was already forwarded to a member"))
+            else
+              ({ m with groups := m.groups.map (fun x => if x.name == g && x.idx == s.idx then { x with delivered := x.delivered ++ [a] } else x) }, none)
+          | none => (m, none)
         | none => (m, none)
       | none => (m, none)
     | _, _ => (m, none)
@@ -248,7 +293,8 @@ def linkPushes (m : MonState) (l : Nat) (p : Packet) : MonState :=
 /-! ### ghost events -/
 
 def closeSubs (subs : List Sub) (m : MonState) : List Sub :=
-  subs.map (fun s => match s.closedAt with | some _ => s | none => { s with closedAt := some (histOf m s.idx).length, replayOpen := false })
+  -- a replay produced before the subscription ended may still sit in the link's buffer
+  subs.map (fun s => match s.closedAt with | some _ => s | none => { s with closedAt := some (histOf m s.idx).length })
 
 /-- resume points of a persistent session: for every subscription, the oldest forwarded and
     unacknowledged QoS>0 entry if any, else where it stopped -/
@@ -261,7 +307,7 @@ def resumeSubs (lm : LinkMon) : List Sub :=
       let ptr := cfg[i]?.getD s.start
       let unacked := lm.pendingAcks.filterMap (fun p => if p.subIx == some i then p.abs else none)
       let resume := match unacked.head? with | some a => min a ptr | none => ptr
-      some { s with start := resume, replayOpen := false }
+      some { s with start := resume, replayDue := false, lossy := s.qos == 0 }
 
 def touchGroups (m : MonState) (client : String) : MonState :=
   -- any membership-affecting event restarts the completeness window of every group
@@ -299,7 +345,21 @@ def applyGhost (m : MonState) (g : Ghost) : MonState × Fail :=
       let fuzzy := lm.ambiguous || lm.configs.length != 1 || lm.pendingAcks.any (fun p => p.subIx.isNone) || sharedIdx
       let m := if clean then { m with sessions := m.sessions.filter (·.clientId != clientId) }
                else { m with sessions := m.sessions.filter (·.clientId != clientId) ++ [{ clientId, subs := resumeSubs lm, fuzzy }] }
-      let lm := { lm with live := false, subs := closeSubs lm.subs m, expectAcks := [] }
+      -- C08 over C17: unacknowledged QoS>0 entries of a persistent member are handed out again
+      let retract : List (String × Nat × Nat) := if clean then [] else lm.pendingAcks.filterMap (fun p =>
+        match p.subIx, p.abs with
+        | some i, some a => match lm.subs[i]? with
+          | some s => s.group.map (fun g => (g, s.idx, a))
+          | none => none
+        | _, _ => none)
+      let unknown := !clean && lm.pendingAcks.any (fun p => p.subIx.isNone)
+      let m := { m with groups := m.groups.map (fun g =>
+        let mine := lm.subs.any (fun s => s.group == some g.name && s.idx == g.idx)
+        if !mine then g else
+        let g := { g with delivered := g.delivered.filter (fun a => !retract.any (fun r => r.1 == g.name && r.2.1 == g.idx && r.2.2 == a)) }
+        if unknown then { g with fuzzy := true } else g) }
+      -- replies already flushed to the link's buffer may still be drained afterwards
+      let lm := { lm with live := false, subs := closeSubs lm.subs m }
       let m := touchGroups m clientId
       (setL { m with liveCount := m.liveCount - 1 } l lm, none)
   | .accepted _ p topic =>
@@ -311,14 +371,8 @@ def applyGhost (m : MonState) (g : Ghost) : MonState × Fail :=
     let hist := if idx < m.hist.length then m.hist else m.hist ++ List.replicate (idx + 1 - m.hist.length) []
     ({ m with hist := hist.set idx ((hist[idx]?.getD []) ++ [p]) }, none)
   | .evicted idx headAbs =>
-    -- permitted loss: cursors behind the new head jump to it
-    let bump (lm : LinkMon) : LinkMon :=
-      { lm with configs := lm.configs.map (fun cfg =>
-          (cfg.zipIdx).map (fun (ptr, i) => match lm.subs[i]? with
-            | some s => if s.idx == idx && ptr < headAbs then headAbs else ptr
-            | none => ptr)) }
-    ({ m with links := m.links.map bump,
-              sessions := m.sessions.map (fun sv => { sv with subs := sv.subs.map (fun s => if s.idx == idx && s.start < headAbs then { s with start := headAbs } else s) }),
+    -- permitted loss: a cursor behind the new head jumps to it at its next read
+    ({ m with heads := m.heads ++ [(idx, headAbs)],
               groups := m.groups.map (fun g => if g.idx == idx then { g with fuzzy := true } else g) }, none)
   | .subscribed id path qos idx cursor group isNew =>
     match linkOfConn m id with
@@ -330,15 +384,18 @@ def applyGhost (m : MonState) (g : Ghost) : MonState × Fail :=
                     else touchGroups { m with groups := m.groups ++ [{ name := g, idx }] } lm.clientId
         | none => m
       if !isNew then (m, none) else
-      let s : Sub := { path, qos, idx, group, start := cursor.2, replayOpen := group.isNone, since := m.t }
-      let lm := { lm with subs := lm.subs ++ [s], configs := lm.configs.map (· ++ [cursor.2]) }
+      -- a member may be handed any entry the group has not delivered yet (the group's cursor,
+      -- not the member's, decides), in increasing order per member
+      let start := if group.isSome then 0 else cursor.2
+      let s : Sub := { path, qos, idx, group, start, replayOpen := group.isNone, since := m.t }
+      let lm := { lm with subs := lm.subs ++ [s], configs := lm.configs.map (· ++ [start]) }
       (setL m l lm, none)
   | .unsubscribed id path =>
     match linkOfConn m id with
     | none => (m, none)
     | some l =>
       let lm := getL m l
-      let subs := lm.subs.map (fun s => if s.path == path && s.closedAt.isNone then { s with closedAt := some (histOf m s.idx).length, replayOpen := false } else s)
+      let subs := lm.subs.map (fun s => if s.path == path && s.closedAt.isNone then { s with closedAt := some (histOf m s.idx).length } else s)
       (touchGroups (setL m l { lm with subs := subs }) lm.clientId, none)
   | .committed id a =>
     match linkOfConn m id with
@@ -357,7 +414,7 @@ def applyGhost (m : MonState) (g : Ghost) : MonState × Fail :=
     | some l =>
       let lm := getL m l
       if lm.ambiguous then (m, none) else
-      let bad := lm.subs.find? (fun s => s.group.isNone && s.closedAt.isNone &&
+      let bad := lm.subs.find? (fun s => s.group.isNone && s.closedAt.isNone && s.qos != 0 &&
         (reqs.any (fun r => r.filter == s.path && r.cursor.2 != s.start &&
           -- a cursor behind the retained head is moved forward by the read itself
           !(r.cursor.2 < s.start && (histOf m s.idx).length ≥ s.start))))
@@ -428,35 +485,42 @@ def atIdle (prop : String) (m : MonState) : Fail :=
     else
       -- C01: some attribution has every open non-shared subscription caught up
       let done (cfg : List Nat) : Bool := (lm.subs.zipIdx).all fun (s, i) =>
-        s.closedAt.isSome || s.group.isSome || (cfg[i]?.getD s.start) ≥ (histOf m s.idx).length
+        s.closedAt.isSome || s.group.isSome || s.lossy || (cfg[i]?.getD s.start) ≥ (histOf m s.idx).length
       if !lm.configs.any done then
-        some ("c01-undelivered-at-idle", s!"link {l} ({lm.clientId}): a subscription has undelivered matching messages although the broker is idle")
+        some ("c01-undelivered-at-idle", s!"link {l} ({lm.clientId}): a subscription has undelivered matching messages although the broker is idle; subscriptions: {describeSubs m lm}")
       else
         -- C15: a new non-shared subscription got the retained message of every matching topic
         let topics := dedup (m.retainedHist.map (·.1))
         let maxOut := match m.cfg with | some c => c.maxOutgoingPacketCount | none => 0
-        let miss := lm.subs.findSome? fun s =>
-          if !s.replayOpen || s.closedAt.isSome then none else
-          let due := topics.filter fun t =>
-            topicMatches t s.path &&
-            -- retained when the subscription took effect and never cleared since
-            (match ((m.retainedHist.filter (fun e => e.1 == t && e.2.1 < s.since)).getLast?) with
-             | some (_, _, some _) => true | _ => false) &&
-            !(m.retainedHist.any (fun e => e.1 == t && e.2.1 ≥ s.since && e.2.2.isNone))
-          let fits := if s.qos == 0 then due.length ≤ maxOut else lm.maxWindow + due.length ≤ 100
-          if !fits then none else
-          (due.find? (fun t => !s.replayed.contains t)).map (fun t => (s.path, t))
+        let dueFor (s : Sub) (t : String) : Bool :=
+          s.replayOpen && s.replayDue && s.closedAt.isNone && topicMatches t s.path &&
+          -- retained when the subscription took effect and never cleared since
+          (match ((m.retainedHist.filter (fun e => e.1 == t && e.2.1 < s.since)).getLast?) with
+           | some (_, _, some _) => true | _ => false) &&
+          !(m.retainedHist.any (fun e => e.1 == t && e.2.1 ≥ s.since && e.2.2.isNone)) &&
+          -- the replay is truncated to the free window: only demand completeness when even the
+          -- largest possible replay set (every matching topic that ever had a retained message) fits
+          (let upper := (topics.filter (fun t' => topicMatches t' s.path)).length
+           if s.qos == 0 then upper ≤ maxOut else lm.maxWindow + upper ≤ 100)
+        let miss := topics.findSome? fun t =>
+          [0, 1, 2].findSome? fun q =>
+            let demanded := (lm.subs.filter (fun s => s.qos == q && dueFor s t)).length
+            let seen := (lm.replays.filter (fun r => r.1 == t && r.2 == q)).length
+            if seen < demanded then some (s!"qos {q}: {seen} of {demanded}", t) else none
         match miss with
-        | some (path, t) => some ("c15-replay-missing", s!"link {l}: new subscription {path} did not receive the retained message of topic {t}")
+        | some (what, t) => some ("c15-replay-missing", s!"link {l}: the retained message of topic {t} was replayed to fewer new subscriptions than it is due ({what}); subs: {lm.subs.map (fun s => (s.path, s.qos, s.replayOpen, s.since))} maxWindow={lm.maxWindow}")
         | none => none
   let gfails : List (String × String) := m.groups.filterMap fun g =>
     if g.fuzzy then none else
     let members := m.links.filter (fun lm => lm.live && lm.subs.any (fun s => s.group == some g.name && s.idx == g.idx && s.closedAt.isNone))
     if members.isEmpty then none else
+    -- a member whose attribution was abandoned (too many alternatives) hides its deliveries
+    if m.links.any (fun lm => lm.ambiguous && lm.subs.any (fun s => s.group == some g.name && s.idx == g.idx)) then none else
     let h := histOf m g.idx
-    let missing := (List.range h.length).filter (fun a => a ≥ g.stableFrom && !g.delivered.contains a)
+    let missing := (List.range h.length).filter (fun a => a ≥ g.stableFrom && !g.delivered.contains a && !g.maybe.contains a &&
+      (match h[a]? with | some e => !e.payload.isEmpty | none => false))
     if missing.isEmpty then none
-    else some ("c17-undelivered-at-idle", s!"group {g.name}: entries {missing.take 5} were forwarded to no member although the group stayed non-empty")
+    else some ("c17-undelivered-at-idle", s!"group {g.name}: entries {missing.take 5} (payloads {(missing.take 5).map (fun a => match h[a]? with | some e => showBytes e.payload | none => "?")}) were forwarded to no member although the group stayed non-empty; delivered={g.delivered.length} maybe={g.maybe} stableFrom={g.stableFrom} log={h.length} members={members.map (fun lm => (lm.clientId, describeSubs m lm))}")
   filt prop ((fails ++ gfails).find? (fun f => relevant prop f.1))
 
 end Router.Monitors
